@@ -12,7 +12,14 @@ def dev(argv):
     t0 = time.time()
     timeout = 10000
     for target in argv:
-        if target.startswith("lemma:"):
+        if target.startswith("axiom:"):
+            from .verify import axiom_instance_obligations
+            ax = reg.axioms[target[6:]]
+            obs = []
+            for inst in ax.instances:
+                obs += axiom_instance_obligations(reg, fe, ax, inst)
+            print("== %s" % target)
+        elif target.startswith("lemma:"):
             obs = lemma_obligations(reg, fe, reg.lemmas[target[6:]])
             status = "ok"
             print("== %s" % target)
@@ -24,6 +31,19 @@ def dev(argv):
             r = verify_function(reg, fe, con)
             obs = r.obligations
             print("== %s status=%s %s paths=%d obligations=%d" % (target, r.status, r.reason, r.paths, len(obs)))
+        for a in sys.argv:
+            if a.startswith("--dump="):
+                from .solve import to_smt2
+                import os
+                os.makedirs("/tmp/vc", exist_ok=True)
+                for i, ob in enumerate(obs):
+                    if a[7:] in ob.name + "/" + ob.path:
+                        for k, text in enumerate(to_smt2(ob)):
+                            fn = "/tmp/vc/%d_%d.smt2" % (i, k)
+                            open(fn, "w").write(text + "(check-sat)\n")
+                            print("dumped", ob.name, ob.path, fn)
+            if a.startswith("--only="):
+                obs = [ob for ob in obs if a[7:] in ob.name + "/" + ob.path]
         res = discharge(obs, timeout_ms=timeout)
         bad = 0
         for ob, rr in zip(obs, res):
